@@ -280,6 +280,43 @@ def r3(k: Kit) -> None:
                                    for n, v in st), 'C11.R3',
                   key(pn, f'install {fld}'), f'{fld} installed with the keys',
                   f'_recv_{fld} not taken from the stage', pn.loc(pn.node))
+    # everything staged by send_newkeys is installed together with the keys
+    sn0 = k.func(CONN + 'send_newkeys')
+    staged = set()
+    for blk in ast.walk(sn0.node):
+        for body in (getattr(blk, 'body', None), getattr(blk, 'orelse', None)):
+            if not isinstance(body, list):
+                continue
+            names = {dotted(t) for x in body if isinstance(x, ast.Assign)
+                     for t in x.targets}
+            # the block that stages the receive keys stages the rest with it
+            if 'self._next_recv_encryption' in names:
+                staged |= {d for d in names
+                           if d and d.startswith('self._next_')}
+    rep.floor('C11.R3', 'staged receive-side fields', len(staged), 5)
+    anchor = inst[0][0].id if inst else None
+    for d in sorted(staged):
+        ins = [n for n in g.nodes if n.kind == 'stmt' and
+               isinstance(n.ast, ast.Assign) and dotted(n.ast.value) == d and
+               dotted(n.ast.targets[0]) != d]
+        okc = bool(ins) and anchor is not None
+        why = f'{d} is staged by send_newkeys but never installed'
+        for i in ins:
+            if i.id == anchor:
+                continue
+            after = g.path(anchor, g.exit, blocked_nodes=[i.id],
+                           follow_exc=False) is None
+            before = g.path(g.entry, anchor, blocked_nodes=[i.id],
+                            follow_exc=False) is None
+            if not (after or before):
+                okc = False
+                why = (f'{d} is installed only on some of the paths that '
+                       'install the new receive keys (a staged value of '
+                       'None / 0 is meaningful, e.g. compression "none"): '
+                       'the old setting stays in force after re-exchange')
+        rep.check(okc, 'C11.R3', key(pn, f'install {d} with the keys'),
+                  f'{d} installed on every path that installs the keys',
+                  why, pn.loc(pn.node))
     sn = k.func(CONN + 'send_newkeys')
     g = k.cfg(sn)
     for n, v in k.stores_to(sn, 'self._session_id'):
